@@ -9,6 +9,7 @@ from vf import rt
 from vf.chx import Ob
 
 CANARIES = {
+    'reader-text-assigned': ('wn.lmf', "            parent['text'] += data", "            parent['text'] = data"),
     'swap-email-license': ('wn._add', "         lexicon['email'],\n         lexicon['license'],",
                            "         lexicon['license'],\n         lexicon['email'],"),
     'lemma-script-dropped': ('wn._add', "entry['lemma'].get('script'), 0)", "None, 0)"),
@@ -43,8 +44,9 @@ ASSUMPTIONS = [
     'the normalized_form column is the subject of C09)',
     'written forms and counts are concrete at API level (Form(str)/Count(int) constructors '
     'force a concrete value); the raw-column obligation covers them symbolically',
-    'JSON (de)serialisation of metadata by the sqlite3 adapter is outside the model: metadata '
-    'dicts are stored as objects',
+    'JSON (de)serialisation of metadata by the sqlite3 adapter is modelled as a structural copy '
+    '(a stored / fetched metadata dict is a fresh object with the same content); the JSON text '
+    'itself is outside the model',
 ]
 
 STYLES = ['1.0', '1.1']
@@ -281,6 +283,47 @@ def h_extension(xtag1: str, xftag1: str, xsx1: str, xssx1: str, xsrel: str,
     return rt.verdict(ok)
 
 
+FILE_VERSIONS = ['1.0', '1.1', '1.2', '1.3']
+FILE_TEXTS = ['t', 'two words', '<a & "b">', "it's \u00e9 \U0001f600"]
+
+
+def h_from_file(kt: int, kd: int, has_a: bool, has_b: bool, split: bool) -> bool:
+    """
+    pre: 0 <= kt < 4 and 0 <= kd < 4
+    pre: rt.THOROUGH or kd == (kt + 1) % 4
+    post: _
+    """
+    # the document as a *file*: the real writer's output goes through the real reader handlers
+    # (vf.lmfbridge; text may arrive in two chunks as expat delivers it) before it is added
+    from vf import lmfbridge as B
+    version = FILE_VERSIONS[rt.part(4)[0]]
+    style = '1.0' if version == '1.0' else '1.1'
+    text, text2 = FILE_TEXTS[0], FILE_TEXTS[0]
+    for n in range(4):
+        if kt == n:
+            text = FILE_TEXTS[n]
+        if kd == n:
+            text2 = FILE_TEXTS[n]
+    sym = dict(sx1=text, def1=text2, def2=text, ssx1=text2, ilidef2=text, tag1=text2, pron1=text,
+               label=text2, citation=text, lex_meta_title=text2, sx1_meta_source=text,
+               has_sx1_meta=has_a, has_ssx1_meta=has_a, has_def1_meta=has_a, has_lex_meta=has_a,
+               has_citation=has_b, has_adjposition=has_b, has_ssx1_lang=has_b, has_members=has_b,
+               has_s1_lexicalized=has_b, has_pron_phonemic=has_b, has_frame_id2=has_b)
+    lex = docs.lexicon_rich(docs.P(sym), style=style)
+    loaded, _trees = B.dump_to_events(docs.resource([lex], version), split_text=split)
+    rt.DB()
+    rt.stub_normalizer()
+    A.BATCH_SIZE = 2
+    rt.quiet_add(loaded)
+    obs = docs.observe_lexicon(wn, 'L:1')
+    proj = docs.project_lexicon(lex)
+    if not rt.SYM:
+        d = docs.first_difference(proj, obs)
+        if d:
+            rt.log('difference (expected vs API): ' + d)
+    return rt.verdict(obs == proj)
+
+
 _F = ['wn._add.add_lexical_resource', '_add_lexical_resource', '_precheck', '_update_lookup_tables',
       '_insert_lexicon', '_build_lexid_map', '_batch', '_insert_synsets', '_insert_entries',
       '_insert_forms', '_insert_pronunciations', '_insert_tags', '_insert_senses',
@@ -328,6 +371,16 @@ OBLIGATIONS = [
        thorough=dict(timeout=900), canary=None, functions=_F, stubs=_STUB,
        symbolic='label, a definition and an example of each lexicon',
        bounds='one resource with two lexicons whose entity ids are identical'),
+    Ob('from-file', 'h_from_file', parts=4, quick=dict(timeout=250), thorough=dict(timeout=900),
+       canary=[('reader-text-assigned', 1)],
+       functions=['wn.lmf._make_parser handlers (start / char_data / end)', 'wn.lmf._validate*',
+                  'wn.lmf._dump_lexicon and below'] + _F,
+       stubs=_STUB + ['expat / ElementTree framing = vf.lmfbridge (text may arrive in two chunks)'],
+       symbolic='texts of examples / definitions / ILI definition / tag / pronunciation / label / '
+                'citation / metadata from ' + repr(FILE_TEXTS) + ' (two choices; quick tier: the second follows the first), '
+                'two groups of presence bits, whether character data arrives in one or two chunks',
+       bounds='rich skeleton written by the real writer in WN-LMF 1.0 / 1.1 / 1.2 / 1.3 '
+              '(partition), read by the real reader, added, observed through the API'),
     Ob('extension', 'h_extension', quick=dict(timeout=300), thorough=dict(timeout=900),
        canary='ext-tag-form', functions=_F, stubs=_STUB,
        symbolic='tag on external lemma / external form, example, definition, synset example, '
